@@ -17,7 +17,7 @@ func errRules() []*Rule {
 		{ID: "ERR-2", Props: []string{"C12", "C01", "C02", "C15", "C19"}, Min: 120,
 			Doc: "on the failing edge of every `err != nil` test the function returns a non-nil error, or (no error result) latches a non-nil error into a captured cell/field on every path",
 			Run: runErr2},
-		{ID: "SKIP-1", Props: []string{"C12", "C02"}, Min: 7,
+		{ID: "SKIP-1", Props: []string{"C12", "C02"}, Min: 4,
 			Doc: "scan adapters of the root package never skip a row silently: every path delivers the row to the user's callback, or records an error and stops",
 			Run: runSkip1},
 		{ID: "DONE-1", Props: []string{"C17"}, Min: 14,
@@ -26,7 +26,7 @@ func errRules() []*Rule {
 		{ID: "DONE-2", Props: []string{"C17"}, Min: 5,
 			Doc: "adapters return the user callback's answer as their done result",
 			Run: runDone2},
-		{ID: "DONE-3", Props: []string{"C17"}, Min: 5,
+		{ID: "DONE-3", Props: []string{"C17"}, Min: 3,
 			Doc: "top-level scans return exactly the iteration's error (an early stop is not an error)",
 			Run: runDone3},
 	}
@@ -145,6 +145,24 @@ func errException(p *Program, fn *ssa.Function, cs ssa.CallInstruction) string {
 	top := fn
 	for top.Parent() != nil {
 		top = top.Parent()
+	}
+	// code moved out of an excepted function into a freshly extracted helper keeps the exception
+	if inlinable != nil && inlinable(top) {
+		roots := contextRoots(p, top, 0)
+		why := ""
+		for _, r := range roots {
+			if r == top {
+				why = ""
+				break
+			}
+			w := errException(p, r, cs)
+			if w == "" {
+				why = ""
+				break
+			}
+			why = w
+		}
+		return why
 	}
 	switch p.FnKey(top) {
 	case "(*db.Database).withoutRowid":
